@@ -436,7 +436,8 @@ def is_const_default(sch, ty, lit, ann, top=False):
         return is_const_default(sch, sch.types[ty[1]]['ty'], lit, {}, top=False)
     t = ty
     if k == 'id':
-        return True
+        # ident_into_ty: `K.to_string()` for a string const at a `pilota.rust_type = "string"` field is not const
+        return not (t[0] == 'string' and ann.get('pilota.rust_type') == 'string')
     if t[0] == 'map':
         return False
     if t[0] in ('list', 'set'):
@@ -1030,10 +1031,12 @@ def corpus():
         # its members by their IDL names
         Struct('Endpoint', [F(1, 'hostName', 'string', 'required'), F(2, 'portNumber', 'i32', 'required'), F(3, 'useTls', 'bool', 'optional'),
                             F(4, 'type', 'i32', 'optional'), F(5, 'MaxRetries', 'i16')]),
+        Struct('WithMap', [F(1, 'a', 'i32', 'required'), F(2, 'm', M('string', 'i32')), F(3, 'lm', L(M('i8', 'i8')), 'required')]),
         Struct('Lits', [
             F(50, 'ep', R('Endpoint'), 'default', LM((Str('hostName'), Str('localhost')), (Str('portNumber'), I(8080)), (Str('useTls'), I(1)),
                                                      (Str('type'), I(7)), (Str('MaxRetries'), I(3)))),
             F(51, 'ep_o', R('Endpoint'), 'optional', LM((Str('portNumber'), I(9090)), (Str('hostName'), Str('h', "'")))),
+            F(59, 'st_m', R('WithMap'), 'default', LM((Str('a'), I(1)), (Str('m'), LM((Str('k'), I(5)))), (Str('lm'), LL(LM((I(1), I(2))))))),
             F(60, 'st', R('Inner'), 'default', LM((Str('a'), I(3)), (Str('b'), Str('bee')))), F(61, 'st_r', R('Inner'), 'required', LM((Str('a'), I(4)))),
             F(62, 'st_o', R('Inner'), 'optional', LM((Str('a'), I(5)), (Str('c'), I(0)), (Str('d'), LL(I(9))))),
             F(63, 'st_none', R('Inner'), 'default', LM()), F(64, 'st_inc', R('inc.Pt'), 'default', LM((Str('x'), I(1)), (Str('y'), I(2)))),
@@ -1042,6 +1045,32 @@ def corpus():
             F(90, 'plain', 'i32', 'default', I(1)),
         ]),
     ], includes=['inc'], style=1, configs=('plain', 'split')))
+
+    # ---- dfix: the default shapes repaired in pilota-build's literal lowering (F-14g container literal inside container literal,
+    # F-14l path through a typedef'd target, F-14i const of set type, int at set<double> / map-key double, string const at a
+    # std String field, double constants beyond f64's range) and an enum-typed const used as a number
+    docs.append(Doc('dfix', [
+        Enum('M', [('A', 0), ('B', 5), ('C', -3)]),
+        Typedef('TdM', R('M')), Typedef('Count', 'i32'), Typedef('Count2', R('Count')), Typedef('Label', 'string'),
+        Typedef('TdMap', M('i8', 'i8')), Typedef('MapList', L(M('string', 'i32'))),
+        Const('K', 'i32', I(41)), Const('KS', 'string', Str('lbl')), Const('KM', R('M'), Id('M.B')),
+        Const('KSET', S('i32'), LL(I(1), I(2))), Const('KSS', S('string'), LL(Str('a'))), Const('KEMPTY', S('i32'), LL()),
+        Struct('Fix', [
+            F(1, 'mm', M('i8', M('byte', 'string')), 'default', LM((I(1), LM((I(2), Str('x')))), (I(3), LM()))),
+            F(2, 'lm', L(M('string', 'i32')), 'required', LL(LM((Str('a'), I(1))), LM())),
+            F(3, 'td', R('TdMap'), 'optional', LM((I(1), I(2)))),
+            F(4, 'em', M('string', M('string', 'i32')), 'default', LM((Str('e'), LL()))),
+            F(5, 'tdlm', R('MapList'), 'default', LL(LM((Str('k'), I(7))))),
+            F(6, 'sm', S('i32'), 'default', LL()),
+            F(10, 'e_td', R('TdM'), 'default', Id('M.B')), F(11, 'e_td_r', R('TdM'), 'required', Id('M.C')),
+            F(12, 'c_td', R('Count'), 'default', Id('K')), F(13, 'c_td2', R('Count2'), 'required', Id('K')),
+            F(14, 's_td', R('Label'), 'optional', Id('KS')),
+            F(20, 'sd', S('double'), 'default', LL(I(1), D('2.5'), I(-16777217))), F(21, 'md', M('double', 'string'), 'required', LM((I(3), Str('x')))),
+            F(30, 's_std', 'string', 'default', Id('KS'), rust_type='string'), F(31, 'r_std', 'string', 'required', Id('KS'), rust_type='string'),
+            F(40, 'km', 'i32', 'default', Id('KM')), F(41, 'km8', 'i8', 'required', Id('KM')),
+            F(50, 'd_inf', 'double', 'default', D('1e999')), F(51, 'd_ninf', 'double', 'required', D('-1e999')),
+        ]),
+    ], style=2))
 
     # ---- ann: annotations
     docs.append(Doc('ann', [
